@@ -139,13 +139,13 @@ set_option linter.unusedSimpArgs false
 
 /-- `LevelMask.get_level` = the hand model's `bitLength`, for ALL masks. -/
 theorem c02_src_level (m : Nat) : Generated.lmLevel_sideOk m ∧ Generated.lmLevel m = bitLength m := by
-  refine ⟨by simp only [Generated.lmLevel_sideOk] <;> src_arith, ?_⟩
+  refine ⟨by simp only [Generated.lmLevel_sideOk]; src_arith, ?_⟩
   simp only [Generated.lmLevel, py_bitLength_eq, py_popcount_eq]
 
 /-- `LevelMask.get_hash_index` = the number of one bits (`Spec.popcount` = the hand model's `popcount`), for ALL masks. -/
 theorem c02_src_hash_index (m : Nat) :
     Generated.lmHashIndex_sideOk m ∧ Generated.lmHashIndex m = popcount m ∧ Generated.lmHashIndex m = Spec.popcount m := by
-  refine ⟨by simp only [Generated.lmHashIndex_sideOk] <;> src_arith, ?_, ?_⟩
+  refine ⟨by simp only [Generated.lmHashIndex_sideOk]; src_arith, ?_, ?_⟩
   · simp only [Generated.lmHashIndex, py_bitLength_eq, py_popcount_eq]
   · simp only [Generated.lmHashIndex, py_bitLength_eq, py_popcount_eq, popcount_eq]
 
@@ -183,16 +183,16 @@ theorem c02_src_pruned_offsets (pi hi off : Nat) :
     Generated.prunedDepthOff pi hi = 2 + 32 * pi + 2 * hi ∧
     Generated.prunedDepthLo off = off ∧ Generated.prunedDepthHi off = off + 2 := by
   refine ⟨⟨?_, ?_, ?_, ?_, ?_⟩, ?_, ?_, ?_, ?_, ?_⟩
-  · simp only [Generated.prunedHashLo_sideOk] <;> src_arith
-  · simp only [Generated.prunedHashHi_sideOk] <;> src_arith
-  · simp only [Generated.prunedDepthOff_sideOk] <;> src_arith
-  · simp only [Generated.prunedDepthLo_sideOk] <;> src_arith
-  · simp only [Generated.prunedDepthHi_sideOk] <;> src_arith
-  · simp only [Generated.prunedHashLo] <;> src_arith
-  · simp only [Generated.prunedHashHi] <;> src_arith
-  · simp only [Generated.prunedDepthOff] <;> src_arith
-  · simp only [Generated.prunedDepthLo] <;> src_arith
-  · simp only [Generated.prunedDepthHi] <;> src_arith
+  · simp only [Generated.prunedHashLo_sideOk]; src_arith
+  · simp only [Generated.prunedHashHi_sideOk]; src_arith
+  · simp only [Generated.prunedDepthOff_sideOk]; src_arith
+  · simp only [Generated.prunedDepthLo_sideOk]; src_arith
+  · simp only [Generated.prunedDepthHi_sideOk]; src_arith
+  · simp only [Generated.prunedHashLo]; src_arith
+  · simp only [Generated.prunedHashHi]; src_arith
+  · simp only [Generated.prunedDepthOff]; src_arith
+  · simp only [Generated.prunedDepthLo]; src_arith
+  · simp only [Generated.prunedDepthHi]; src_arith
 
 /-- the hand model's `get_hash` / `get_depth` (what `c02_model_eq_spec` is proved about) are the source's index
 computations: hash index from `apply`+`get_hash_index`, pruned slices at the generated offsets. -/
@@ -225,6 +225,29 @@ theorem c02_src_get_hash_depth (c : CellInfo) (lvl : Nat) :
     simp only [this]
   · have : ∀ p h, 2 + 32 * p + h * 2 = 2 + 32 * p + 2 * h := by intro p h; omega
     simp only [this]
+
+/-- descriptors of exotic cells: `get_refs_descriptor` / `get_bits_descriptor` compute the spec's d1 (with the exotic flag
+and the level MASK) and d2, for ALL reference counts, flags, masks and bit lengths — the two bytes every per-level hash of
+`c02_model_eq_spec` starts with (`Spec.plainHashAt`, `Spec.prunedHashAt`). -/
+theorem c02_src_descriptors (r : Nat) (exotic : Bool) (mask b : Nat) :
+    (Generated.refsDescriptor_sideOk r exotic mask ∧ Generated.bitsDescriptor_sideOk b) ∧
+    Generated.refsDescriptor r exotic mask = Spec.d1 r exotic mask ∧ Generated.bitsDescriptor b = Spec.d2 b ∧
+    descriptors r exotic b mask =
+      (do let d1 ← toBytesBE? Generated.refsDescriptor_width (Generated.refsDescriptor r exotic mask)
+          let d2 ← toBytesBE? Generated.bitsDescriptor_width (Generated.bitsDescriptor b)
+          pure (d1 ++ d2)) := by
+  have h1 : Generated.refsDescriptor r exotic mask = Spec.d1 r exotic mask := by
+    simp only [Generated.refsDescriptor, Spec.d1] <;> (cases exotic <;> src_arith)
+  have h2 : Generated.bitsDescriptor b = Spec.d2 b := by
+    simp only [Generated.bitsDescriptor, Spec.d2]; src_arith
+  refine ⟨⟨?_, ?_⟩, h1, h2, ?_⟩
+  · simp only [Generated.refsDescriptor_sideOk]; src_arith
+  · simp only [Generated.bitsDescriptor_sideOk]; src_arith
+  · rw [h1, h2, show Generated.refsDescriptor_width = 1 from rfl, show Generated.bitsDescriptor_width = 1 from rfl]
+    unfold descriptors Spec.d1 Spec.d2
+    have : (b / 8) * 2 + (if b % 8 != 0 then 1 else 0) = b / 8 + (b + 7) / 8 := by
+      by_cases h : b % 8 = 0 <;> simp [h] <;> omega
+    rw [this]
 
 end Src
 
